@@ -229,7 +229,13 @@ func c18Judge(c *Ctx, pre *State, iv inv, res *Result, post *State, module strin
 		}
 		vs = append(vs, Violation{Oracle: "no-crash", Command: cmd, Tags: iv.tags, Site: site, Detail: fmt.Sprintf("exit %d%s", res.Exit, outputTail(res))})
 	}
-	if iv.invalid && res.Exit != 0 && post.Key() != pre.Key() {
+	// commands that validate their arguments before acting: whenever they refuse (non-zero exit), the
+	// refusal is for their arguments (the sandbox produces no I/O failures), so nothing may have changed
+	validating := map[string]bool{"add": true, "rm": true, "restore": true, "config": true, "branch": true, "switch": true, "update-ref": true, "commit": true}
+	if len(iv.args) > 1 && argsOverlap(nonFlags(iv.args[1:])) {
+		validating[cmd] = false // the same path twice: the statements leave the exit status open (see C04)
+	}
+	if (iv.invalid || validating[cmd]) && res.Exit != 0 && !SameIgnoringTmp(pre, post) {
 		vs = append(vs, Violation{Oracle: "refused-unchanged", Command: cmd, Tags: iv.tags, Detail: "a command refused for invalid arguments changed the repository" + outputTail(res)})
 	}
 	return vs
@@ -295,4 +301,14 @@ func checkC18(e *RunEnv) *CheckResult {
 		cov["rule"] = "the whole command grammar (18 sub-commands + help/completion/bare goit; every flag subset, unknown flag, missing flag value; argument lists of length 0..2 over per-command alphabets) is executed on every state of the corpus; a case is one (state, command line); distinct_nontrivial = distinct cases executed"
 	})
 	return res
+}
+
+func nonFlags(args []string) []string {
+	var out []string
+	for _, a := range args {
+		if !strings.HasPrefix(a, "-") {
+			out = append(out, a)
+		}
+	}
+	return out
 }
